@@ -187,6 +187,8 @@ def _run_case(case, rec, mon=None):
             Ws = [2, 3, 4, 5, int(rng.integers(6, 41)), int(rng.integers(40, 601)), int(rng.integers(600, 4001)), fl, int(2 ** np.ceil(np.log2(fl)))]
             if cfg["name"] == "gabor":
                 Ws = [w for w in Ws if w <= 1500] + [int(rng.integers(6, 200))]
+            if case.get("widths"):
+                Ws = list(case["widths"])
             # widths whose half spectra have as many bins as a full spectrum asked for later (and the other way round)
             w0 = int(rng.integers(6, 300))
             Ws += [2 * (w0 - 1), 2 * w0 - 1, w0, 2 * w0 - 1, 2 * (w0 - 1)]
@@ -243,6 +245,19 @@ def run_shard(spec, rec):
         else:
             cfg = filtgen.bank_cfg(rng)
             run_case({"idx": i, "seed": spec["seed"], "cfg": cfg, "threshold": [None, None, 5e-5, None, 2e-3, None][i % 6]}, rec, mon)
+            if i % 10 == 2:
+                # the same layout again in this process, as new bank objects under other thresholds
+                for thr in (5e-5, 2e-3):
+                    run_case({"idx": i, "seed": spec["seed"], "cfg": cfg, "threshold": thr}, rec, mon)
+                rec.count("layouts_rebuilt_under_other_thresholds")
+        if i % 100 == 7:
+            # directed: a triangular bank whose high_hz uses the documented 1 Hz leeway above Nyquist, at widths fine enough
+            # (bin spacing <= 1 Hz) for the top of its last filter to matter
+            rate = int(rng.choice([2000, 4000]))
+            cfg = {"name": "tri", "num_filts": int(rng.integers(2, 6)), "sampling_rate": rate, "low_hz": float(rng.choice([0.0, 50.0])), "high_hz": rate / 2 + float(rng.choice([1.0, 0.75])),
+                   "scaling_function": str(rng.choice(["mel", "bark"])), "analytic": bool(i % 200 == 7)}
+            run_case({"idx": 10 ** 7 + i, "seed": spec["seed"], "cfg": cfg, "widths": [rate, rate + 1, 2 * rate, 2 * rate + 1, 3 * rate + 1]}, rec, mon)
+            rec.count("directed_triangular_banks_inside_the_nyquist_leeway")
     monitor.report(rec)
     monitor.detach_all()
 
